@@ -127,6 +127,17 @@ def both_ways(write, s, name, res, what, **sig):
         outs["buffer"] = buf.getvalue()
     except Exception as e:  # noqa
         outs["buffer"] = e
+    # a file with a history: something already in it, then two collections written one after the other
+    p3 = s.p(name + ".used")
+    try:
+        with open(p3, "w") as f:
+            f.write(";; earlier content\n")
+            write(f)
+        with open(p3, "a") as f:
+            write(f)
+        outs["used"] = open(p3).read()
+    except Exception as e:  # noqa
+        outs["used"] = e
     kinds = {k: (type(v).__name__ if isinstance(v, Exception) else "ok") for k, v in outs.items()}
     if len(set(kinds.values())) > 1:
         res.violate("stream.outcome-differs", f"{what}: writing to a path / open file / buffer ends differently: {kinds}", **sig)
@@ -140,7 +151,42 @@ def both_ways(write, s, name, res, what, **sig):
                     f"{a[line] if line < len(a) else None!r} vs {b[line] if line < len(b) else None!r}", first_diff_line=line + 1,
                     first_diff=[a[line] if line < len(a) else None, b[line] if line < len(b) else None], **sig)
         return None
+    if outs["used"] != ";; earlier content\n" + 2 * outs["path"]:
+        res.violate("stream.used-file", f"{what}: written after earlier content and then again in append mode, the file does not hold the earlier content followed by the output twice", **sig)
+        return None
+    res.bump("fault.file_with_history")
     return outs["path"]
+
+
+def prime(s, path, text, reader, res):
+    """The path about to be (re)written through the harness's own open file held other content a moment
+    ago (left by the warm-up round), and that content is read by path first: a reader that remembers
+    what a path held then returns it again (no library call writes to the path in between)."""
+    old = getattr(s, "prime_text", {}).get(path)
+    if old is not None and old != text:
+        with open(path, "w") as f:
+            f.write(old)
+        try:
+            reader(path)
+        except HarnessError:
+            raise
+        except Exception:  # noqa
+            pass
+        res.bump("fault.reread_after_rewrite")
+    if not hasattr(s, "prime_text"):
+        s.prime_text = {}
+    s.prime_text[path] = text
+
+
+def warm_up(sc):
+    """The same workload on the first utterance / item only, run first in the same process on the same
+    paths: whatever the library remembers between calls is then stale (not judged)."""
+    w = copy.deepcopy(sc)
+    for k in ("utts", "items", "toks"):
+        if isinstance(w.get(k), list) and len(w[k]) > 1:
+            w[k] = w[k][:1]
+            return w
+    return None
 
 
 def execute(sc):
@@ -151,6 +197,15 @@ def execute(sc):
 
         with Scratch() as s:
             fn = {"trn": run_trn, "ctm": run_ctm, "tg": run_tg, "token": run_token}[sc["fmt"]]
+            w = warm_up(sc)
+            if w is not None:
+                try:
+                    fn(w, s, RunResult(), data)
+                except HarnessError:
+                    raise
+                except Exception:  # noqa
+                    pass
+                res.bump("fault.stale_state_round")
             fn(sc, s, res, data)
     res.bump(f"fmt.{sc['fmt']}")
     return res
@@ -167,6 +222,7 @@ def run_trn(sc, s, res, data):
     if sc["blank_lines"]:
         text = text.replace("\n", "\n\n")
     path = s.p("in.trn")
+    prime(s, path, text, lambda p: data.read_trn(p, warn=False), res)
     with open(path, "w") as f:
         f.write(text)
     serial = data.read_trn(path, warn=False)
@@ -241,6 +297,7 @@ def run_ctm(sc, s, res, data):
         res.violate("ctm.channel", f"channel {sc['channel']} not used")
         return
     path = s.p("in.ctm")
+    prime(s, path, text, lambda p: data.read_ctm(p, wc2utt), res)
     with open(path, "w") as f:
         f.write(";; comment\n" + text.replace("\n", "  ;; trailing\n", 1))
     got = data.read_ctm(path, wc2utt)
@@ -300,11 +357,12 @@ def run_tg(sc, s, res, data):
         res.violate("tg.write-raised", f"write_textgrid raised {type(text).__name__}: {text}")
         return
     path = s.p("in.TextGrid")
-    with open(path, "w") as f:
-        f.write(text)
     name = sc["tier_name"] or "transcript"
     tier_id = {"default": 0, "idx": 0, "name": name}[sc["read_by"]]
     fill = "FILL" if sc["fill"] else None
+    prime(s, path, text, lambda p: data.read_textgrid(p, tier_id, fill), res)
+    with open(path, "w") as f:
+        f.write(text)
     try:
         got, gx0, gx1 = data.read_textgrid(path, tier_id, fill)
         with open(path) as f:
